@@ -289,3 +289,20 @@ Proof. destruct a as [p pay blinder]. intros (Ip & WB & WP) (v & prog & EP). cbn
       destruct (match_prefix (upper h) (p_blech p)) eqn:ML; [|exact FB]. destruct (UNIQ p true Ip ML) as [_ X]. discriminate.
   - unfold from_str. rewrite FP. rewrite (from_str_bech_first pkv _ (upper h) p bl builtin UNIQ Ip M). exact FB. Qed.
 End RTUpper.
+
+(* ---------------------------------------------------------------- C06_roundtrip, all address kinds *)
+Section RTAll.
+Variable H : bytes -> bytes. Variable pkv : bytes -> bool.
+
+Lemma is_segwit_dec a : is_segwit a \/ ~ is_segwit a.
+Proof. unfold is_segwit. destruct (a_payload a) as [h|h|v prog]; [right|right|left; eauto]; intros (v & prog & E); discriminate E. Qed.
+
+Theorem roundtrip_all : (forall x, 4 <= length (H x))%nat -> forall a, wf_addr pkv a ->
+  (parse_with_params H pkv (display H a) (a_params a) = AOk a /\ from_str H pkv (display H a) = AOk a) /\
+  (is_segwit a -> parse_with_params H pkv (upper (display H a)) (a_params a) = AOk a /\ from_str H pkv (upper (display H a)) = AOk a).
+Proof. intros H4 a WF. split; [|intros SW; now apply roundtrip_segwit_upper].
+  destruct (is_segwit_dec a) as [SW|NS]; [now apply roundtrip_segwit|now apply roundtrip_base58]. Qed.
+
+Theorem canonical_from_str s a : from_str H pkv s = AOk a -> (is_segwit a /\ display H a = lower s) \/ (~ is_segwit a /\ display H a = s).
+Proof. intros E. destruct (from_str_is_parse H pkv s a E) as (p & _ & E'). exact (canonical H pkv s p a E'). Qed.
+End RTAll.
